@@ -629,6 +629,9 @@ func randHistory(w *tr.W, rng *rand.Rand, idx, maxops, sweep int) {
 			return 0, false
 		}
 		c := contents(t)
+		if len(c) == 0 { // Len() and the contents disagree (a corrupted tree): the choice of key is only
+			return 0, false // a bias, so fall back to a random key and let TLC judge what is recorded
+		}
 		return c[rng.Intn(len(c))][0], true
 	}
 	handle := func() int { return 1 + rng.Intn(len(r.s.hs)) }
